@@ -4,7 +4,7 @@
 # demonstration fails with it and passes without), stores it under /verif/seeded/<name>/, then
 # applies it to /repo, runs the listed checks and undoes it.
 name="$1"; src="$2"; shift 2
-export GOFLAGS=-mod=mod GOPROXY=off GOSUMDB=off GOTOOLCHAIN=local
+export GOFLAGS=-mod=mod GOPROXY=off GOSUMDB=off GOTOOLCHAIN=local DBUS_SESSION_BUS_ADDRESS=unix:path=/nonexistent/verif-no-session-bus
 S="$src/SEED"
 [ -f "$S/patch.diff" ] || { echo "no patch.diff in $S"; exit 2; }
 demo_rel=$(grep -o '[a-zA-Z0-9_./-]*\.go' "$S/demo_path.txt" | grep -v '^SEED/' | grep '/' | head -1)
